@@ -514,6 +514,11 @@ def run(ctx):
         if not bad:
             r6.ok("%s returns 0 only as the result of the sub-socket's receive" % f.qname)
 
+    # the peer's ORDERLY close must arrive as data followed by 0, not as a reset: see C02.R9
+    from . import C02 as c02
+    r7 = ctx.rule("C06.R7", "an orderly close by a TLS peer that never received is not turned into a reset (no unread post-handshake records)")
+    c02.check_no_unread_records(P, r7)
+
 
 def classify_closed(P, r4, r6):
     """every store of conn_state_closed: which condition is it under?"""
